@@ -199,7 +199,7 @@ def run_path(world, contract, ex, ctx, prefix, report):
                          'post[%d]' % i, 'postcondition', ex.node)
             # call sites treat a conditional `raises` clause as exact, so a normal return must exclude it
             for ek, cond in contract.raises.items():
-                if cond is not True:
+                if cond is not True and contract.raises_exact:
                     with OldState(it):
                         cnd = it.truth(it.eval_text(cond))
                     it.check(z3.Not(cnd), 'must-raise[%s]' % ek,
